@@ -94,6 +94,19 @@ func enumCases() []enumCase {
 			Tgt:     enumDef{"int", []enumMember{{"TgtRed", "4"}, {"TgtGreen", "5"}, {"TgtBlue", "6"}}},
 			Lines:   []string{`enum:transform regex Src(\w+) Tgt$1`, "enum:map SrcRed TgtBlue"},
 			Mapping: map[string]string{"SrcRed": "TgtBlue", "SrcGreen": "TgtGreen", "SrcBlue": "TgtBlue"}},
+		// several transformers on one method: each runs with its own configuration
+		{Name: "two_transformers", Src: enumDef{"int", []enumMember{{"SrcRed", "0"}, {"SrcGreen", "1"}, {"OldBlue", "2"}}},
+			Tgt:     enumDef{"int", []enumMember{{"TgtRed", "4"}, {"TgtGreen", "5"}, {"NewBlue", "6"}}},
+			Lines:   []string{`enum:transform regex Src(\w+) Tgt$1`, `enum:transform regex Old(\w+) New$1`},
+			Mapping: map[string]string{"SrcRed": "TgtRed", "SrcGreen": "TgtGreen", "OldBlue": "NewBlue"}},
+		{Name: "two_transformers_same_name_target", Src: enumDef{"int", []enumMember{{"SrcRed", "0"}, {"SrcGreen", "1"}, {"OldBlue", "2"}}},
+			Tgt:     enumDef{"int", []enumMember{{"TgtRed", "4"}, {"TgtGreen", "5"}, {"NewBlue", "6"}, {"OldBlue", "7"}}},
+			Lines:   []string{`enum:transform regex Src(\w+) Tgt$1`, `enum:transform regex Old(\w+) New$1`},
+			Mapping: map[string]string{"SrcRed": "TgtRed", "SrcGreen": "TgtGreen", "OldBlue": "NewBlue"}},
+		{Name: "three_transformers_and_map", Src: enumDef{"int", []enumMember{{"SrcRed", "0"}, {"AGreen", "1"}, {"OldBlue", "2"}}},
+			Tgt:     enumDef{"int", []enumMember{{"TgtRed", "4"}, {"BGreen", "5"}, {"NewBlue", "6"}}},
+			Lines:   []string{`enum:transform regex A(\w+) B$1`, `enum:transform regex Src(\w+) Tgt$1`, `enum:transform regex Old(\w+) New$1`, "enum:map SrcRed NewBlue"},
+			Mapping: map[string]string{"SrcRed": "NewBlue", "AGreen": "BGreen", "OldBlue": "NewBlue"}},
 		{Name: "transform_regex_repeated", Src: enumDef{"int", []enumMember{{"S_Not_Found", "0"}, {"S_Ok", "1"}, {"S_A_B_C", "2"}, {"Plain", "3"}}},
 			Tgt:     enumDef{"int", []enumMember{{"SNotFound", "4"}, {"SOk", "5"}, {"SABC", "6"}, {"Plain", "7"}, {"SNot_Found", "8"}}},
 			Lines:   []string{`enum:transform regex _([A-Z]) $1`},
@@ -289,12 +302,15 @@ func FamilyEnum(thorough bool) []*Conv {
 	enumThorough = thorough
 	var out []*Conv
 	policies := []string{"@error", "@panic", "@ignore", "KEY"}
-	positions := []string{"top", "field", "elem", "mapkey", "mapval"}
+	positions := []string{"top", "field", "elem", "mapkey", "mapval", "ptrfield", "toptr", "ptrelem"}
 	n := 0
 	for _, ec := range enumCases() {
 		for pi, pol := range policies {
 			for _, pos := range positions {
-				if ec.Fail != "" && (pi != 0 || pos != "top") {
+				if ec.Fail != "" && (pi != 0 || (pos != "top" && pos != "ptrfield")) {
+					continue
+				}
+				if ec.Fail != "" && pos == "ptrfield" && len(ec.Lines) > 0 {
 					continue
 				}
 				if ec.NoEnum && (pi != 0 || (pos != "top" && pos != "field")) {
@@ -359,6 +375,14 @@ func FamilyEnum(thorough bool) []*Conv {
 					s, t = "PFXS", "PFXT"
 				case "elem":
 					s, t = "[]"+srcT, "[]"+tgtT
+				case "ptrfield":
+					// a value that becomes a pointer: still the member-wise conversion
+					decls = fmt.Sprintf("type PFXS struct {\n\tE %s\n\tN int\n}\ntype PFXT struct {\n\tE *%s\n\tN int\n}\n", srcT, tgtT)
+					s, t = "PFXS", "PFXT"
+				case "toptr":
+					s, t = srcT, "*"+tgtT
+				case "ptrelem":
+					s, t = "[]"+srcT, "[]*"+tgtT
 				case "mapkey":
 					s, t = "map["+srcT+"]int", "map["+tgtT+"]int"
 				case "mapval":
